@@ -5,6 +5,13 @@ from ..interp_prop import InterpProp
 
 class C03(InterpProp):
     id = 'C03'
+    # observables compared with the model (see InterpProp.normalize)
+    cmp_eff = ('exit', 'action', 'entry')
+    cmp_step = None
+    cmp_slot = ('config', 'ctx')
+    cmp_callbacks = False
+    cmp_err = 'class'
+    cmp_time = False
     quick_cases = 1000
     thorough_cases = 40000
     n_ops = 36
